@@ -165,6 +165,13 @@ ASMJIT_FAVOR_SIZE Error FuncFrame::finalize() noexcept {
   uint32_t stack_alignment = _final_stack_alignment;
   ASMJIT_ASSERT(stack_alignment == Support::max(_natural_stack_alignment, _call_stack_alignment, _local_stack_alignment));
 
+  // An alignment between the natural one and the minimum dynamic alignment can be neither assumed nor established
+  // (X86: natural 4, requested 8, dynamic alignment starts at 16) - report and lay the frame out for what is delivered.
+  if (stack_alignment > _natural_stack_alignment && stack_alignment < _min_dynamic_alignment) {
+    stack_alignment = _natural_stack_alignment;
+    _final_stack_alignment = uint8_t(stack_alignment);
+  }
+
   bool has_fp = has_preserved_fp();
   bool has_da = has_dynamic_alignment();
 
